@@ -35,6 +35,9 @@ fn main() {
     let mut oracle = String::new();
     let mut ops = vec![];
     let mut files = vec![];
+    let mut entries: Vec<(Vec<u8>, u64, u8, Vec<u8>)> = vec![];
+    let mut lookups: Vec<(Vec<u8>, u64)> = vec![];
+    let mut block_size = 4096usize;
     for l in &lines {
         let t: Vec<&str> = l.split_whitespace().collect();
         if t.is_empty() {
@@ -50,6 +53,9 @@ fn main() {
                 "truncate" => ops.push(api::LogOp::Truncate(t[2].parse().unwrap())),
                 _ => panic!("bad op"),
             },
+            "entry" => entries.push((unhex(t[1]), t[2].parse().unwrap(), t[3].parse().unwrap(), unhex(t[4]))),
+            "lookup" => lookups.push((unhex(t[1]), t[2].parse().unwrap())),
+            "block_size" => block_size = t[1].parse().unwrap(),
             "file" => files.push((
                 api::ikey(&unhex(t[1]), t[2].parse().unwrap(), 1),
                 api::ikey(&unhex(t[3]), t[4].parse().unwrap(), 1),
@@ -90,6 +96,29 @@ fn main() {
                 println!("REPLAY holds oracle=key_range");
             } else {
                 println!("REPLAY violated oracle=key_range {}", bad.join("; "));
+            }
+        }
+        // real TableBuilder + Table::get vs "newest entry of the user key at or below the bound"
+        "table_get" => {
+            let mut bad = vec![];
+            for (u, s) in &lookups {
+                let actual = api::table_get(&entries, block_size, u, *s);
+                let mut expected = "notfound".to_string();
+                // entries are sorted: user asc, seq desc -> first match is the newest visible
+                for (eu, es, eop, ev) in &entries {
+                    if eu == u && *es <= *s {
+                        expected = if *eop == 0 { "deleted".to_string() } else { format!("value:{}", ev.iter().map(|b| format!("{:02x}", b)).collect::<String>()) };
+                        break;
+                    }
+                }
+                if actual != expected {
+                    bad.push(format!("get({},{}) returned {} expected {}", hex(u), s, actual, expected));
+                }
+            }
+            if bad.is_empty() {
+                println!("REPLAY holds oracle=table_get lookups={}", lookups.len());
+            } else {
+                println!("REPLAY violated oracle=table_get block_size={} {}", block_size, bad.join("; "));
             }
         }
         other => {
